@@ -38,7 +38,7 @@ RELEVANT = {
 }
 
 OPS = [
-    (r"<=", ["<"]), (r">=", [">"]), (r"(?<![<>=!-])<(?![<=])", ["<="]), (r"(?<![<>=!-])>(?![>=])", [">="]),
+    (r"<=", ["<"]), (r">=", [">"]), (r"(?<= )<(?= )", ["<="]), (r"(?<= )>(?= )", [">="]),
     (r"==", ["!="]), (r"!=", ["=="]), (r"&&", ["||"]), (r"\|\|", ["&&"]),
     (r"<<", [">>"]), (r">>", ["<<"]), (r"(?<![+\w])\+(?![+=])", ["-"]), (r"(?<![-\w(,=<>] )-(?![-=>\d])", ["+"]),
     (r"\*(?![=/])", ["/"]), (r"/(?![/*=])", ["*"]),
@@ -58,8 +58,18 @@ def code_lines(path):
     skip_item = False      # inside an item that follows #[cfg(feature = "test_gen")]
     depth = 0
     opened = False
+    in_block = False
     for i, l in enumerate(src):
         t = l.strip()
+        if in_block:
+            if "*/" in t:
+                in_block = False
+            continue
+        if t.startswith("/*") and "*/" not in t:
+            in_block = True
+            continue
+        if "write!(" in t or "write_str(" in t or "expecting" in t:
+            continue            # Display / Debug / serde diagnostics: outside every property
         if re.match(r"#\[cfg\(test\)\]", t) or "mod test" in t:
             in_test = True
         if in_test:
